@@ -70,7 +70,10 @@ def run(prop, tier, seed, profiles, n_quick, n_thorough, also=(), assumptions=()
                         corr.append(dict(kind="sql_model_refuses", stmt=stt["id"], seed=p.get("seed"), profile=p.get("profile"), model=mf))
                     else:
                         n_sqlmodel += 1
-                        d = oracle.compare_frames(o["frame"], mf, ordered)
+                        # the sequence is only defined by the ORDER BY of the outermost SELECT (an inner one is lost: D64)
+                        mo_y = next((x for x in m if x.get("id") == stt["id"]), None) or {}
+                        outer_sorted = bool((mo_y.get("shape") or {}).get("order_by"))
+                        d = oracle.compare_frames(o["frame"], mf, ordered and outer_sorted)
                         if d:
                             corr.append(dict(kind="sql_model_vs_sqlite", stmt=stt["id"], seed=p.get("seed"), profile=p.get("profile"), detail=d))
     known_hits, new = {}, []
